@@ -14,6 +14,7 @@ import (
 	"strings"
 	"sync"
 	"verif/internal/props/c01"
+	"verif/internal/props/c05"
 	"verif/internal/props/c06"
 
 	minify "github.com/tdewolff/minify/v2"
@@ -621,6 +622,31 @@ func Run(c *core.Check) {
 			c.AddFamily(xfam, 1, 1)
 			if kind != "" {
 				c.Fail(core.Failure{Family: "text/xml", Input: doc, Config: []string{"default", "non-default"}[ri], Kind: kind, What: what, Order: idx, Extra: map[string]any{"input_bytes": doc}})
+			}
+		}
+	})
+	// (v') generated SVG documents: the document grammar of C05 (shapes, style elements and attributes, white-space- and
+	// comment-only elements, references, foreign content); stand-alone and inside HTML
+	sfam := "generated-svg-documents"
+	c.ParallelStream(sfam, func(emit func(string) bool) { c05.Documents(emit) }, func(idx uint64, doc string) {
+		w := <-workers
+		defer func() { workers <- w }()
+		v := validator{w}
+		for ri, m := range []*minify.M{mdef, mnon} {
+			for ti, in := range []string{doc, "<p>x</p>" + doc[strings.Index(doc, "<svg"):] + "<p>y</p>"} {
+				typ := []string{"image/svg+xml", "text/html"}[ti]
+				if ti == 1 && idx%4 != 0 {
+					continue
+				}
+				kind, what, acc := v.CheckOne(m, typ, []byte(in), false)
+				if !acc && kind == "" {
+					continue
+				}
+				c.Count(1)
+				c.AddFamily(sfam, 1, 1)
+				if kind != "" {
+					c.Fail(core.Failure{Family: typ, Input: in, Config: []string{"default", "non-default"}[ri], Kind: kind, What: what, Order: idx, Extra: map[string]any{"input_bytes": in}})
+				}
 			}
 		}
 	})
